@@ -109,3 +109,21 @@ func TestC13OwnWritesThroughIndex(t *testing.T) {
 	require.Equal(t, []int64{1, 2, 3}, c13Ints(t, e, tx, "SELECT id FROM g WHERE n = 7 ORDER BY id")) // primary index: fine
 	require.Equal(t, []int64{1, 2, 3}, c13Ints(t, e, tx, "SELECT id FROM g USE INDEX ON (n) WHERE n = 7"), "through the index on n only the last updated row is visible inside the transaction")
 }
+
+// sqltx/update-revisits-rows-moved-in-scanned-index
+func TestC13UpdateThroughIndexItModifies(t *testing.T) {
+	e := c13Engine(t)
+	ctx := context.Background()
+	_, _, err := e.Exec(ctx, nil, "CREATE TABLE t (id INTEGER, p INTEGER, q INTEGER, PRIMARY KEY id); CREATE INDEX ON t(p, q)", nil)
+	require.NoError(t, err)
+	_, _, err = e.Exec(ctx, nil, "INSERT INTO t(id, p, q) VALUES (1, 1, 1), (2, 1, 2), (3, 2, 1)", nil)
+	require.NoError(t, err)
+	// rows 1 and 2 have p = 1; setting q = 5 moves their index entries ahead of the scan
+	// position. The scan meets them again once the transaction's private copy of the index
+	// has been written to before (here by the INSERT).
+	tx, _, err := e.Exec(ctx, nil, "BEGIN TRANSACTION; INSERT INTO t(id, p, q) VALUES (4, 3, 3)", nil)
+	require.NoError(t, err)
+	tx, _, err = e.Exec(ctx, tx, "UPDATE t SET q = 5 WHERE p = 1", nil)
+	require.NoError(t, err)
+	require.Equal(t, 1+2, tx.UpdatedRows(), "one row inserted, two rows have p = 1; rows moved ahead in the scanned index were updated and counted again")
+}
